@@ -116,6 +116,22 @@ exact_string (const unsigned char *b, long len)
   return s;
 }
 
+/* The same, starting g_palign bytes into its block (malloc returns 16-aligned memory, so exact_string is
+   always aligned): the string still ends flush against the end of the block.  *base receives what to free.  */
+static int g_palign;
+static char *
+exact_string_at (const unsigned char *b, long len, void **base)
+{
+  *base = 0;
+  if (len < 0) return 0;
+  char *blk = malloc ((size_t) len + 1 + (size_t) g_palign);
+  *base = blk;
+  char *s = blk + g_palign;
+  memcpy (s, b, (size_t) len);
+  s[len] = 0;
+  return s;
+}
+
 static char outbuf[1 << 20];
 static size_t outpos;
 
@@ -504,6 +520,10 @@ __wrap_free (void *p)
   __real_free (p);
 }
 
+/* hugeok: behave like a host with reserved huge pages - a MAP_HUGETLB request succeeds (served by an ordinary
+   mapping) and, as mmap(2) says, must later be unmapped with a length that is a multiple of the huge page size */
+static int g_hugeok;
+static void *g_huge_maps[16];
 void *
 __wrap_mmap (void *addr, size_t len, int prot, int flags, int fd, off_t off)
 {
@@ -518,10 +538,21 @@ __wrap_mmap (void *addr, size_t len, int prot, int flags, int fd, off_t off)
 #endif
   if (fault_now ()) { ev_add ("M%zu%s!", len, h); errno = ENOMEM; return MAP_FAILED; }
   if (len > g_mapcap) { ev_add ("M%zu%sX", len, h); errno = ENOMEM; return MAP_FAILED; }
+  int emu = 0;
+#ifdef MAP_HUGETLB
+  if (g_hugeok && (flags & MAP_HUGETLB))
+    {
+      if (len % ((size_t) 2 << 20)) { ev_add ("M%zu%se", len, h); errno = EINVAL; return MAP_FAILED; }
+      flags &= ~(MAP_HUGETLB | (int) (0x3fu << 26));
+      emu = 1;
+    }
+#endif
   void *p = __real_mmap (addr, len, prot, flags, fd, off);
   if (p == MAP_FAILED) { ev_add ("M%zu%se", len, h); return p; }
-  ev_add ("M%zu%s", len, h);
+  ev_add ("M%zu%s%s", len, h, emu ? "H" : "");
   led_add (p, len, 'm', 'L');
+  if (emu)
+    for (int i = 0; i < 16; i++) if (!g_huge_maps[i]) { g_huge_maps[i] = p; break; }
   return p;
 }
 
@@ -539,6 +570,18 @@ __wrap_munmap (void *addr, size_t len)
       errno = EINVAL;
       return -1;
     }
+  for (int i = 0; i < 16; i++)
+    if (g_huge_maps[i] == addr)
+      {
+        if (len % ((size_t) 2 << 20))
+          {
+            /* the kernel refuses this on a huge page mapping: the region stays mapped */
+            ev_add ("U%zu!", len);
+            errno = EINVAL;
+            return -1;
+          }
+        g_huge_maps[i] = 0;
+      }
   long hits = 0;
   if (scan_on && e)
     {
@@ -785,7 +828,8 @@ cmd_crypt (int argc, char **argv)
   unsigned char *pb, *sb;
   long pl = hexdecode (argv[3], &pb);
   long sl = hexdecode (argv[4], &sb);
-  char *phrase = exact_string (pb, pl);
+  void *phrase_base;
+  char *phrase = exact_string_at (pb, pl, &phrase_base);
   char *setting = exact_string (sb, sl);
   char argmode = argv[6][0];
   struct crypt_data *cd = 0;
@@ -807,7 +851,10 @@ cmd_crypt (int argc, char **argv)
      p = only the phrase inside (data->input); g = only the setting inside (data->setting) */
   if (argmode != 's' && argmode != 'o' && !(full && pl >= 0 && sl >= 0 && pl < 512 && sl < 384))
     argmode = 's';
-  int set_in = (argmode == 'i' || argmode == 'g'), phr_in = (argmode == 'i' || argmode == 'p');
+  /* n = the setting is stored in data->setting but NULL is passed; m = the phrase is stored in data->input but
+     NULL is passed (a NULL argument must fail whatever the object's fields hold) */
+  int null_set = (argmode == 'n'), null_phr = (argmode == 'm');
+  int set_in = (argmode == 'i' || argmode == 'g' || null_set), phr_in = (argmode == 'i' || argmode == 'p' || null_phr);
   if (full)
     {
       if (set_in) memcpy (cd->setting, setting, (size_t) sl + 1);
@@ -836,8 +883,8 @@ cmd_crypt (int argc, char **argv)
   else needle_clear ();          /* no phrase (NULL): needles of an earlier call must not be matched */
 
   cc.entry = entry;
-  cc.phrase = aliased ? last_static_ret : phr_in ? cd->input : phrase;
-  cc.setting = set_in ? cd->setting : setting;
+  cc.phrase = null_phr ? 0 : aliased ? last_static_ret : phr_in ? cd->input : phrase;
+  cc.setting = null_set ? 0 : set_in ? cd->setting : setting;
   cc.data = cd;
   cc.size = !strcmp (argv[5], "=") ? (int) objsize : atoi (argv[5]);
   cc.ra_data = &s->ra_ptr;
@@ -969,7 +1016,7 @@ cmd_crypt (int argc, char **argv)
     }
 #endif
 done:
-  free (pb); free (sb); free (phrase); free (setting);
+  free (pb); free (sb); free (phrase_base); free (setting);
 }
 
 static void
@@ -1533,6 +1580,18 @@ handle (char *line)
       g_ent_sublen = 0;
       if (l > 0) { g_ent_sublen = (size_t) l > sizeof g_ent_sub ? sizeof g_ent_sub : (size_t) l; memcpy (g_ent_sub, b, g_ent_sublen); }
       free (b);
+      out_printf ("ok");
+    }
+  else if (!strcmp (c, "palign") && argc >= 2)
+    {
+      g_palign = atoi (argv[1]) & 15;
+      out_printf ("ok");
+    }
+  else if (!strcmp (c, "hugeok") && argc >= 2)
+    {
+#ifndef VW_NOWRAP
+      g_hugeok = atoi (argv[1]);
+#endif
       out_printf ("ok");
     }
   else if (!strcmp (c, "preerrno") && argc >= 2)
